@@ -735,6 +735,13 @@ func parseParams(s string) ([]Param, error) {
 
 		if r == '(' {
 			part := getBracketedString(s, '(', ')')
+			if part == "" && !strings.HasPrefix(s, "()") {
+				// There is no matching closing bracket.
+				return nil, &Error{
+					Type: ErrInvalidUnionType,
+					Hint: s,
+				}
+			}
 			var types ParamType
 			for _, c := range part {
 				typ, ok := parseParamType(c)
@@ -783,6 +790,13 @@ func parseParams(s string) ([]Param, error) {
 				}
 			}
 			part := getBracketedString(s, '<', '>')
+			if part == "" && !strings.HasPrefix(s, "<>") {
+				// There is no matching closing bracket.
+				return nil, &Error{
+					Type: ErrInvalidParamType,
+					Hint: s,
+				}
+			}
 			sub, err := parseParams(part)
 			if err != nil {
 				return nil, err
